@@ -470,8 +470,25 @@ pub fn build_with(w: &WithSpec, d: Dialect) -> WithClause {
             CommonTableExpression::from_select(build_select(&c.query, d))
         } else {
             let mut cte = CommonTableExpression::new();
-            for col in &c.cols {
-                cte.column(al(QCOLS[*col as usize % 5]));
+            let name = |col: &u8| al(QCOLS[*col as usize % 5]);
+            // the column list is additive whichever way it is given: one by one, first one then the rest, or in two batches
+            match (c.cols.len() as u64 + crate::runner::fingerprint(&c.query)) % 3 {
+                0 => {
+                    for col in &c.cols {
+                        cte.column(name(col));
+                    }
+                }
+                1 => {
+                    if let Some((first, rest)) = c.cols.split_first() {
+                        cte.column(name(first));
+                        cte.columns(rest.iter().map(name));
+                    }
+                }
+                _ => {
+                    let (a, b) = c.cols.split_at(c.cols.len() / 2);
+                    cte.columns(a.iter().map(name));
+                    cte.columns(b.iter().map(name));
+                }
             }
             cte.query(build_select(&c.query, d));
             cte
